@@ -208,10 +208,13 @@ package cty
 //@   tags C01 C04
 //@   may_panic
 //@   requires (and (wf_deep val) (wf_deep elem))
-//@   let plainops (and (not (is_marked val)) (not (is_marked elem)))
+//@   let plainops (and (not (deep_marked val)) (not (deep_marked elem)))
 //@   ensures[C01] false_only_if_decided: (=> (and plainops (is_set_ty (vty val)) (ty_eq (vty elem) (elem_ty (vty val))) (bool_payload result false)) (and (wholly_known val) (wholly_known elem)))
 //@   ensures[C01] type: (=> plainops (and (is_bool_ty (vty result)) (not (is_null result)) (not (is_marked result))))
 //@   ensures[C04] marks_kept: (forall ((k Any)) (! (=> (or (select (marks_of val) k) (select (marks_of elem) k)) (select (marks_of result) k)) :pattern ((select (marks_of result) k))))
+// marks at any depth of the given value (a set's own members carry none) end up on the answer, and never reach
+// the set's hashing and equivalence rules
+//@   ensures[C04] deep_marks_kept: (forall ((k Any)) (! (=> (or (select (deep_marks val) k) (select (deep_marks elem) k)) (select (marks_of result) k)) :pattern ((select (marks_of result) k))))
 //
 // (assumed) a value whose type contains no dynamic placeholder has a wholly known type
 //@ func (cty.Value).HasWhollyKnownType
